@@ -223,21 +223,26 @@ def run_worker(mod, cases, rundir, tag, timeout):
     return None, [], "worker rc=%s: %s" % (rc, out[-800:])
 
 
+_RETRY_BUDGET = 2    # re-runs of timed-out cases per check run (a tree that really hangs stays bounded)
+
+
 def impl_observations(mod, cases, rundir, tag):
     """observations of the implementation; a shard that dies or hangs is re-run case by case"""
     per = int(getattr(mod, "CASE_TIMEOUT", 20))
     obs, notes, err = run_worker(mod, cases, rundir, tag, timeout=max(120, per * 4 + len(cases)))
     if obs is not None:
         # a per-case alarm that fired on a busy machine is not a behaviour of the tree: the first few
-        # timed-out cases of a shard are run again, alone, with six times the limit; only a case that
+        # timed-out cases of a shard are run again, alone, with three times the limit; only a case that
         # times out again keeps the time-out observation (a tree that really hangs still costs a bounded
-        # amount: at most 3 such re-runs per shard)
-        redo = [i for i, o in enumerate(obs) if o == [-1, 98]][:3]
+        # amount: at most 2 such re-runs per check run)
+        global _RETRY_BUDGET
+        redo = [i for i, o in enumerate(obs) if o == [-1, 98]][:max(0, _RETRY_BUDGET)]
         for i in redo:
+            _RETRY_BUDGET -= 1
             env_per = os.environ.get("VERIF_CASE_TIMEOUT")
-            os.environ["VERIF_CASE_TIMEOUT"] = str(per * 6)
+            os.environ["VERIF_CASE_TIMEOUT"] = str(per * 3)
             try:
-                o, n, e = run_worker(mod, [cases[i]], rundir, "%s_retry%d" % (tag, i), timeout=per * 6 + 60)
+                o, n, e = run_worker(mod, [cases[i]], rundir, "%s_retry%d" % (tag, i), timeout=per * 3 + 45)
             finally:
                 if env_per is None:
                     os.environ.pop("VERIF_CASE_TIMEOUT", None)
